@@ -68,6 +68,14 @@ def canon_piecewise(t, max_atoms=4):
         no = build(z3.substitute(term, (a, z3.BoolVal(False))), k + 1)
         if yes.eq(no):
             return yes
+        if z3.is_eq(a):
+            # If(u == v, X, Y) with X[u:=v] identical to Y[u:=v]: under the condition X = Y, so the term is Y
+            # (a coordinate that was displaced and moved back: If(t == i, P(i), P(t)) is P(t))
+            l, r = a.children()
+            for u, v in ((l, r), (r, l)):
+                if z3.is_const(u) and u.decl().kind() == z3.Z3_OP_UNINTERPRETED:
+                    if z3.simplify(z3.substitute(yes, (u, v))).eq(z3.simplify(z3.substitute(no, (u, v)))):
+                        return no
         return z3.If(a, yes, no)
     return build(t, 0)
 
